@@ -1845,7 +1845,7 @@ class PseudoNetCDFFile(PseudoNetCDFSelfReg, object):
             dates = self.variables['TFLAG'][:][:, 0, 0]
             if (dates == -635).any():
                 warn('Dates of -635 set to 1970001')
-                dates[dates == -635] = 1970001
+                dates = np.where(dates == -635, 1970001, dates)
             times = self.variables['TFLAG'][:][:, 0, 1]
             yyyys = (dates // 1000).astype('i')
             jjj = dates % 1000
